@@ -302,6 +302,21 @@ theorem mem_foldl_insertSorted' (f : Nat → Option Nat) (a : Block) (acc : Bloc
         · subst hs'; rw [hf] at h; simp only [Option.some.injEq] at h; exact Or.inl (Or.inl h.symm)
         · exact Or.inr ⟨s', hs', h⟩
 
+/-- `get_parent_states`, list level: the sources of the first matching in-edge of each state of `a` -/
+theorem mem_parentStates_gen (d : Dfa) (a : Block) (l : Grapheme) (q : Nat) :
+    q ∈ parentStates d a l ↔ ∃ s ∈ a, ((d.inEdges s).find? (fun e =>
+        e.label.chars = l.chars && decide (e.label.min ≤ l.min) && decide (l.max ≤ e.label.max))).map Edge.src = some q := by
+  have key : parentStates d a l =
+      a.foldl (fun x s => match ((d.inEdges s).find? (fun e =>
+        e.label.chars = l.chars && decide (e.label.min ≤ l.min) && decide (l.max ≤ e.label.max))).map Edge.src with
+        | some v => insertSorted v x | none => x) [] := by
+    simp only [parentStates]
+    congr 1
+    funext x s
+    cases (d.inEdges s).find? (fun e => e.label.chars = l.chars && decide (e.label.min ≤ l.min) && decide (l.max ≤ e.label.max)) <;> rfl
+  rw [key, mem_foldl_insertSorted']
+  simp only [List.not_mem_nil, false_or]
+
 /-- `get_parent_states` on a tree with plain labels: the states with an `l`-successor in `a` -/
 theorem mem_parentStates {d : Dfa} (h : TreeInv d) (a : Block) (l : Grapheme) (hl : l.Simple) (q : Nat) :
     q ∈ parentStates d a l ↔ ∃ t ∈ a, succ d q l = some t := by
